@@ -118,24 +118,38 @@ def lock_abs_check(prop, tier, seed, switches, plan, fifo=False, crash_is_stuck=
     truncated = 0
     from concurrent.futures import ThreadPoolExecutor
 
+    status_all = {}
+
     def run_item(item):
+        # explore one plan item, then project and de-duplicate at once (raw events are not kept in memory)
         k, (cls, progs, par) = item
-        return explore_lock(bdir, cls, progs, workdir, par.get('pb', 2), par.get('max_exec', 4000), seed,
-                            mode=par.get('mode', 'dfs'), tag='%s%d' % (cls, k))
+        files = vlib.run_harness(bdir, 'lockh', [cls], progs, workdir, mode=par.get('mode', 'dfs'), pb=par.get('pb', 2),
+                                 max_exec=par.get('max_exec', 4000), seed=seed, tag='%s%d' % (cls, k))
+        cnt = {}
+        # (a run that is still going after the step limit is a livelock: judged like a run that got stuck)
+        groups = vlib.stream_groups(files, lambda ex: [{'e': 'prog', 'p': cls}] + vlib.api_history(ex, fifo=fifo, crash_is_stuck=crash_is_stuck),
+                                    keep=lambda ex: ex.status not in ('diverged', 'logfull'), counters=cnt)
+        for f in files:
+            try:
+                os.unlink(f)
+            except OSError:
+                pass
+        return groups, cnt
 
     for cls, progs, par in plan:
         for p in progs:
             prog_text[p.split()[1]] = (cls, p)
+    glists = []
     with ThreadPoolExecutor(max_workers=6) as pool:
-        for ex in pool.map(run_item, list(enumerate(plan))):
-            # (a run that is still going after the step limit is a livelock: judged like a run that got stuck)
-            for e in ex:
-                if e.status in ('diverged', 'logfull'):
-                    infra[e.status] += 1
-            all_execs.extend(e for e in ex if e.status not in ('diverged', 'logfull'))
+        for groups, cnt in pool.map(run_item, list(enumerate(plan))):
+            glists.append(groups)
+            for st_, n_ in cnt.items():
+                status_all[st_] = status_all.get(st_, 0) + n_
+                if st_ in ('diverged', 'logfull'):
+                    infra[st_] += n_
     t_explore = time.time() - t0
-    groups = vlib.dedup_histories(all_execs, lambda ex: [{'e': 'prog', 'p': prog_text[ex.prog][0]}] +
-                                  vlib.api_history(ex, fifo=fifo, crash_is_stuck=crash_is_stuck))
+    groups = vlib.merge_groups(glists)
+    n_execs = sum(n_ for st_, n_ in status_all.items() if st_ not in ('diverged', 'logfull'))
     hists = [g[0][1:] for g in groups]
     reps = [g[1] for g in groups]
     cfg = lock_cfg(switches, workdir, 'abs')
@@ -172,9 +186,9 @@ def lock_abs_check(prop, tier, seed, switches, plan, fifo=False, crash_is_stuck=
         })
     cov = {
         'states': max(1, st['distinct']), 'transitions': max(1, st['states']),
-        'traces_validated_against_impl': len(all_execs),
+        'traces_validated_against_impl': n_execs,
         'distinct_histories': len(hists), 'events_validated': st['events'],
-        'programs': len(prog_text), 'exec_status': status_counts(all_execs),
+        'programs': len(prog_text), 'exec_status': {k_: v_ for k_, v_ in status_all.items() if k_ not in ('diverged', 'logfull')},
         'exploration_truncated_programs': truncated, 'inconclusive_executions': dict(infra),
         'switches': list(switches), 'explore_s': round(t_explore, 1),
         'samples': [sample_of(reps[i], hists[i]) for i in range(0, len(hists), max(1, len(hists) // 3))][:3],
